@@ -6,7 +6,7 @@
    black boxes.  Polymorphic in the carrier through a record of operations: executed at Z and
    at Q (reduced after every operation), theorems over any commutative ring / over R.
    Definitions only. *)
-From Coq Require Import List Arith Lia Bool.
+From Coq Require Import List Arith Lia Bool Ring.
 From TLV Require Import Base.Shape Base.PyList Base.Tensor Base.BigSum Base.Ops Model.Base.
 Import ListNotations.
 
@@ -173,6 +173,13 @@ Definition fit (ncomp : nat) (X Y : tensor F) : plsr :=
 Definition loadings (p : plsr) : list (list (tensor F)) := map c_load (comps p).
 Definition fitted_scores (p : plsr) : list (list F) := map c_score (comps p).
 Definition fit_transform_X (p : plsr) (X : tensor F) : tensor F := transform (X_mean_ p) (loadings p) X.
+(* coef_[:, c] = B of component c ; Y_factors[1][:, c] = comp_Y_factors_1 of component c *)
+Definition coef_of (cs : list comp) : tensor F :=
+  tabulate [length cs; length cs] (fun idx => nth (nth 0 idx 0) (nth (nth 1 idx 0) (map c_B cs) []) (f0 Op)).
+Definition yload_of (m : nat) (cs : list comp) : tensor F :=
+  tabulate [m; length cs] (fun idx => tget (nth (nth 1 idx 0) (map c_yload cs) (mk [] [])) [nth 0 idx 0]).
+Definition fit_predict (p : plsr) (X : tensor F) : tensor F :=
+  plsr_predict (X_mean_ p) (Y_mean_ p) (loadings p) (coef_of (comps p)) (yload_of (hd 0 (shape (Y_mean_ p))) (comps p)) X.
 End Fit.
 
 (* helpers for statements: adding a constant tensor to every sample; re-ordering samples *)
@@ -182,5 +189,11 @@ Definition tadd (a b : tensor F) : tensor F :=
   tabulate (shape a) (fun idx => fadd Op (tget a idx) (tget b idx)).
 Definition perm_samples (p : list nat) (X : tensor F) : tensor F :=
   tabulate (shape X) (fun idx => tget X (nth (hd 0 idx) p 0 :: tl idx)).
+Definition rows_ok (n : nat) (p : list nat) : Prop := forall i, i < n -> nth i p 0 < n.
+Definition pick (n : nat) (p : list nat) (t : list F) : list F := map (fun i => nth (nth i p 0) t (f0 Op)) (seq 0 n).
 
 End M.
+
+(* "Op is a commutative ring" (the hypothesis of the ring-regime theorems; Z and R are instances) *)
+Definition is_ring {F} (Op : fops F) : Prop :=
+  ring_theory (f0 Op) (f1 Op) (fadd Op) (fmul Op) (fsub Op) (fopp Op) (@eq F).
